@@ -104,6 +104,10 @@ fn run_chain(ctx: &mut Ctx, c: &Value) -> Result<(), (String, String)> {
                 return Err((format!("ta:{}:by-ref", if by_ref { "accepted" } else { "rejected" }), format!("inspect_ta + verify_ta_ref_at say {by_ref}, specification {want_ok}: {cp}")));
             }
         }
+        // every other public route to the same verdict: relaxed mode, inspect_* + verify_*_at, the detached-EE pair, and (when the
+        // instants lie around the wall clock) the entry points that read the clock themselves
+        let wall = EPOCH.load(std::sync::atomic::Ordering::SeqCst) == 3;
+        entry_points(kind, &cert, issuer.as_ref(), now, wall, want_ok, &e["eff"]).map_err(|(k, m)| (k, format!("certificate {}: {m}: {cp}", i + 1)))?;
         let res: Result<Option<ResourceCert>, String> = match kind {
             "ta" => cert.validate_ta_at(TalInfo::from_name("t".into()).into_arc(), true, now).map(Some).map_err(|e| e.to_string()),
             "ca" => cert.validate_ca_at(issuer.as_ref().unwrap(), true, now).map(Some).map_err(|e| e.to_string()),
@@ -124,6 +128,66 @@ fn run_chain(ctx: &mut Ctx, c: &Value) -> Result<(), (String, String)> {
             (Err(m), true) => {
                 return Err((format!("{kind}:rejected"), format!("certificate {} ({kind}) rejected ({m}), specification accepts it: {}", i + 1, cp)));
             }
+        }
+    }
+    Ok(())
+}
+
+/// The other public entry points that decide the same question as validate_{ta,ca,ee,router}_at(strict).
+fn entry_points(kind: &str, cert: &Cert, issuer: Option<&ResourceCert>, now: rpki::repository::x509::Time, wall: bool, want_ok: bool, eff: &Value) -> Result<(), (String, String)> {
+    let tal = || TalInfo::from_name("t".into()).into_arc();
+    type R = Result<Option<ResourceCert>, String>;
+    let e2s = |e: rpki::repository::error::ValidationError| e.to_string();
+    let v2s = |e: rpki::repository::error::VerificationError| e.to_string();
+    let i2s = |e: rpki::repository::error::InspectionError| e.to_string();
+    let mut routes: Vec<(&str, R)> = Vec::new();
+    let c = || cert.clone();
+    match kind {
+        "ta" => {
+            routes.push(("validate_ta_at:relaxed", c().validate_ta_at(tal(), false, now).map(Some).map_err(e2s)));
+            routes.push(("inspect_ta+verify_ta_at", cert.inspect_ta(true).map_err(i2s).and_then(|_| c().verify_ta_at(tal(), true, now).map(Some).map_err(v2s))));
+            if wall {
+                routes.push(("validate_ta", c().validate_ta(tal(), true).map(Some).map_err(e2s)));
+                routes.push(("inspect_ta+verify_ta", cert.inspect_ta(true).map_err(i2s).and_then(|_| c().verify_ta(tal(), true).map(Some).map_err(v2s))));
+                routes.push(("inspect_ta+verify_ta_ref", cert.inspect_ta(true).map_err(i2s).and_then(|_| cert.verify_ta_ref(true).map(|_| None).map_err(v2s))));
+            }
+        }
+        "ca" => {
+            let iss = issuer.unwrap();
+            routes.push(("validate_ca_at:relaxed", c().validate_ca_at(iss, false, now).map(Some).map_err(e2s)));
+            routes.push(("inspect_ca+verify_ca_at", cert.inspect_ca(true).map_err(i2s).and_then(|_| c().verify_ca_at(iss, true, now).map(Some).map_err(v2s))));
+            if wall {
+                routes.push(("validate_ca", c().validate_ca(iss, true).map(Some).map_err(e2s)));
+                routes.push(("inspect_ca+verify_ca", cert.inspect_ca(true).map_err(i2s).and_then(|_| c().verify_ca(iss, true).map(Some).map_err(v2s))));
+            }
+        }
+        "ee" => {
+            let iss = issuer.unwrap();
+            routes.push(("validate_ee_at:relaxed", c().validate_ee_at(iss, false, now).map(Some).map_err(e2s)));
+            routes.push(("inspect_ee+verify_ee_at", cert.inspect_ee(true).map_err(i2s).and_then(|_| c().verify_ee_at(iss, true, now).map(Some).map_err(v2s))));
+            routes.push(("validate_detached_ee_at", c().validate_detached_ee_at(iss, true, now).map(Some).map_err(e2s)));
+            if wall {
+                routes.push(("validate_ee", c().validate_ee(iss, true).map(Some).map_err(e2s)));
+                routes.push(("validate_detached_ee", c().validate_detached_ee(iss, true).map(Some).map_err(e2s)));
+                routes.push(("inspect_ee+verify_ee", cert.inspect_ee(true).map_err(i2s).and_then(|_| c().verify_ee(iss, true).map(Some).map_err(v2s))));
+            }
+        }
+        _ => {
+            let iss = issuer.unwrap();
+            routes.push(("validate_router_at:relaxed", cert.validate_router_at(iss, false, now).map(|_| None).map_err(e2s)));
+            routes.push(("inspect_router+verify_router_at", cert.inspect_router(true).map_err(i2s).and_then(|_| cert.verify_router_at(iss, true, now).map(|_| None).map_err(v2s))));
+            if wall {
+                routes.push(("validate_router", cert.validate_router(iss, true).map(|_| None).map_err(e2s)));
+                routes.push(("inspect_router+verify_router", cert.inspect_router(true).map_err(i2s).and_then(|_| cert.verify_router(iss, true).map(|_| None).map_err(v2s))));
+            }
+        }
+    }
+    for (name, r) in routes {
+        match (r, want_ok) {
+            (Ok(Some(rc)), true) => check_eff(&rc, eff).map_err(|m| (format!("{kind}:resources:{name}"), format!("{name}: {m}")))?,
+            (Ok(None), true) | (Err(_), false) => {}
+            (Ok(_), false) => return Err((format!("{kind}:accepted:{name}"), format!("{name} accepts, specification rejects"))),
+            (Err(m), true) => return Err((format!("{kind}:rejected:{name}"), format!("{name} rejects ({m}), specification accepts"))),
         }
     }
     Ok(())
@@ -211,6 +275,20 @@ pub fn replay(args: &[String]) {
                 Ok(Err((k, m))) => s.violation(&format!("{k}:epoch{epoch}"), format!("[instants at epoch {epoch}] {m}"), c.clone()),
                 Err(m) => s.violation("panic", format!("[instants at epoch {epoch}] {m}"), c.clone()),
             }
+            s.evals(1);
+        }
+        // behaviours whose evaluation instant lies strictly between two certificate times are run once more with the instants
+        // placed around the wall clock, which brings in the entry points that read the clock themselves
+        if c["now"].as_i64() == Some(3) && c["unit"].as_i64() == Some(2) && wall_usable() {
+            EPOCH.store(3, std::sync::atomic::Ordering::SeqCst);
+            let r = guarded(|| run_chain(&mut ctx, c));
+            EPOCH.store(0, std::sync::atomic::Ordering::SeqCst);
+            match r {
+                Ok(Ok(())) => {}
+                Ok(Err((k, m))) => s.violation(&format!("{k}:wallclock"), format!("[instants around the wall clock] {m}"), c.clone()),
+                Err(m) => s.violation("panic", format!("[instants around the wall clock] {m}"), c.clone()),
+            }
+            s.count("wallclock_runs", 1);
             s.evals(1);
         }
         chain_no += 1;
